@@ -60,3 +60,37 @@ Theorem c11_copyto_structure_is_source :
      (match nth_error (body "Store.CopyTo") 4 with Some (SRange _ _ _ b) => b | _ => [] end).
 Proof. exact DecCopyTo.copyto_structure. Qed.
 Print Assumptions c11_copyto_structure_is_source.
+
+(* ---------------------------------------------------------------------------------------------- *)
+(* ON BYTES (CopyRun.v): CopyTo as the history of calls it makes on the destination store -- SetCollection per source
+   collection in name order, SetItem in ascending key order, a Flush after every flushEvery-th item and a closing Flush.
+   The destination file this predicts is compared byte for byte with the implementation's on every copy. *)
+From GK Require Import Store StoreSpec StoreRefine Codec Disk DStore DStoreRefine CopyRun CopyRunProofs.
+From Coq Require Import ZArith.
+
+Theorem c11_copy_calls_all_succeed : forall src fe, src_ok src ->
+  Forall (fun o => o = ROk) (run (init true) (copy_ops src fe)).
+Proof. exact CopyRunProofs.copy_all_ok. Qed.
+Print Assumptions c11_copy_calls_all_succeed.
+
+Theorem c11_copy_contents : forall src fe, src_ok src ->
+  let s := fold_left (fun s o => fst (step s o)) (copy_ops src fe) (init true) in
+  map (fun nc => (fst nc, c_cmp (snd nc), elems (c_tree (snd nc)))) (s_cur s) = src.
+Proof. exact CopyRunProofs.copy_contents. Qed.
+Print Assumptions c11_copy_contents.
+
+Theorem c11_copy_flushed : forall src fe, src_ok src -> (0 < fe)%Z ->
+  let s := fold_left (fun s o => fst (step s o)) (copy_ops src fe) (init true) in
+  exists st rest, s_flushed s = st :: rest /\ ecolls st = ecolls (s_cur s).
+Proof. exact CopyRunProofs.copy_flushed. Qed.
+Print Assumptions c11_copy_flushed.
+
+Theorem c11_copy_bytes_agree : forall src fe,
+  ops_ok [] (copy_ops src fe) -> history_ok (copy_ops src fe) ->
+  fst (copy_result src fe) = run (init true) (copy_ops src fe).
+Proof. exact CopyRunProofs.copy_bytes_agree. Qed.
+Print Assumptions c11_copy_bytes_agree.
+
+Theorem c11_copy_ops_ok : forall src fe, src_ok src -> ops_ok [] (copy_ops src fe).
+Proof. exact CopyRunProofs.copy_ops_ok. Qed.
+Print Assumptions c11_copy_ops_ok.
